@@ -593,7 +593,9 @@ class simplify_chained_calls(FuncADLNodeTransformer):
                     self._arg_stack.define_name(old_name, ast.Name(a.arg, ast.Load()))
                 else:
                     self._arg_stack.define_name(a.arg, ast.Name(a.arg, ast.Load()))
-            new_body = self.visit(node.body)
+            # The body may be shared with other places of the query (an argument substituted
+            # several times): work on a copy so this visit's renaming does not leak there.
+            new_body = self.visit(copy.deepcopy(node.body))
         return ast.Lambda(args=new_args, body=new_body)
 
     def visit_Attribute_Of_First(self, first: ast.expr, attr: str):
